@@ -900,9 +900,11 @@ impl Broker {
         }
         self.script_fired[i] = true;
         // a fallback entry (same action under another trigger) does nothing once the action has run
-        for j in 0..self.cfg.script.len() {
-            if j != i && self.script_fired[j] && self.cfg.script[j].1 == self.cfg.script[i].1 {
-                return;
+        if matches!(self.cfg.script[i].1, Action::CloseChannel { .. } | Action::CloseConnection { .. } | Action::CancelConsumer { .. }) {
+            for j in 0..self.cfg.script.len() {
+                if j != i && self.script_fired[j] && self.cfg.script[j].1 == self.cfg.script[i].1 {
+                    return;
+                }
             }
         }
         self.stats.scripted_actions += 1;
